@@ -3,8 +3,9 @@ import RadixModel.Model.SigValidation
 open Radix Radix.Proto Radix.SigVal
 
 /-- C33 driver.
-`vs <payload-hex> <version 1|2> <maxPerIntent> <maxTotal> <v1AllowNotaryDup 0|1> <nSubintents> <root> <batch>*`
+`vs <payload-hex> <version 1|2|2p> <maxPerIntent> <maxTotal> <v1AllowNotaryDup 0|1> <nSubintents> <root> <batch>*`
   root  := t:<signatory 0|1>:<notaryKey>:<notaryVerifies 0|1>:<recovered>   | p:<signatory>:<notaryKey>:<keys>
+           | s:<recovered> (root subintent of a signed partial transaction, version 2p)
   batch := s:<recovered> | q:<keys>
   recovered / keys := `-` | item(,item)*   ; item := key (hex) | `x` (signature does not verify)
 The payload is ignored by the model (the harness re-derives the abstract description from it with the real
@@ -38,8 +39,8 @@ def parsePending (isRoot : Bool) (tok : String) : Option P :=
     match parseBit sg, parseKeys l with
     | some sg, some l => if okKey nk then some (.previewTxIntent sg nk l) else none
     | _, _ => none
-  | ["s", l] => if isRoot then none else (parseRec l).map (fun l => .subintent l ())
-  | ["q", l] => if isRoot then none else (parseKeys l).map .previewSubintent
+  | ["s", l] => (parseRec l).map (fun l => .subintent l ())
+  | ["q", l] => (parseKeys l).map .previewSubintent
   | _ => none
 
 def showKeys (ks : List String) : String := if ks.isEmpty then "-" else ",".intercalate ks
@@ -62,7 +63,7 @@ def stepLine (s : Unit) (line : String) : Unit × String :=
   | "vs" :: _payload :: ver :: mpi :: mt :: ad :: nsub :: root :: batches =>
     match mpi.toNat?, mt.toNat?, parseBit ad, nsub.toNat?, parsePending true root, batches.mapM (parsePending false) with
     | some mpi, some mt, some ad, some nsub, some root, some batches =>
-      if ver = "1" ∨ ver = "2" then
+      if ver = "1" ∨ ver = "2" ∨ ver = "2p" then
         let cfg : Cfg := { maxPerIntent := mpi, maxTotal := mt, v1AllowNotaryDup := ad }
         match validateAll crypto cfg (ver = "1") root nsub batches with
         | .error (loc, e) => (s, s!"err {showLoc loc} {showErr e}")
